@@ -1,5 +1,115 @@
-/- Line-protocol driver for the C10 model (stub until the model exists). -/
-import ForML.Model.Sexp
-open ForML
+/- Line-protocol driver for the C10 model (ForML.Model.Ordinal).
 
-def main : IO Unit := driverLoop (fun _ => .atom "no-model")
+  optstr ::= none | (s <atom>)
+  raw    ::= none | (<pyt> <int> <true|false>)          -- value class, denoted point, bool(value)
+  ord    ::= none | (<kind> <once member name>)
+
+  (once optstr)                          → (ok <member>) | (error <Exc>)       Ordinal.__new__
+  (extract <bool> optstr)                → (ok none|<member>) | (error <Exc>)  Extract.__new__
+  (cast <kind> <pyt>)                    → same | conv | CastError             kind.cast
+  (where <member> <kind> raw raw)        → (ok (<cmp> <int>)*) | (error <Exc>) Ordinal.where
+  (windows ord ((raw raw)*) (<int>*))    → ((ok <idx>*) | (error <Exc>))*      one launch per window
+  (train raw raw)                        → raw                                 Runner.train lower bound
+-/
+import ForML.Model.Sexp
+import ForML.Model.Ordinal
+open ForML ForML.Ordinal
+
+def optStr? : Sexp → Option (Option String)
+  | .atom "none" => some none
+  | .list [.atom "s", .atom s] => some (some s)
+  | _ => none
+
+def bool? : Sexp → Option Bool
+  | .atom "true" => some true
+  | .atom "false" => some false
+  | _ => none
+
+def kind? : Sexp → Option Kind
+  | .atom "integer" => some .integer
+  | .atom "float" => some .float
+  | .atom "string" => some .string
+  | .atom "date" => some .date
+  | .atom "timestamp" => some .timestamp
+  | _ => none
+
+def pyt? : Sexp → Option PyT
+  | .atom "bool" => some .bool
+  | .atom "int" => some .int
+  | .atom "float" => some .float
+  | .atom "strGood" => some .strGood
+  | .atom "strBad" => some .strBad
+  | .atom "date" => some .date
+  | .atom "datetime" => some .datetime
+  | _ => none
+
+def pytName : PyT → String
+  | .bool => "bool" | .int => "int" | .float => "float" | .strGood => "strGood"
+  | .strBad => "strBad" | .date => "date" | .datetime => "datetime"
+
+/-- member by its exact (lower-case) name, not by alias -/
+def member? : Sexp → Option Once
+  | .atom s => Once.all.find? (fun m => m.name == s)
+  | _ => none
+
+def raw? : Sexp → Option (Option Raw)
+  | .atom "none" => some none
+  | .list [t, p, b] => do pure (some ⟨← pyt? t, ← p.int?, ← bool? b⟩)
+  | _ => none
+
+def ord? : Sexp → Option (Option (Kind × Once))
+  | .atom "none" => some none
+  | .list [k, m] => do pure (some (← kind? k, ← member? m))
+  | _ => none
+
+def win? : Sexp → Option (Option Raw × Option Raw)
+  | .list [a, b] => do pure (← raw? a, ← raw? b)
+  | _ => none
+
+def ofErr (e : Err) : Sexp := .list [.atom "error", .atom e.name]
+
+def ofRaw : Option Raw → Sexp
+  | none => .atom "none"
+  | some r => .list [.atom (pytName r.ty), Sexp.ofInt r.pt, Sexp.ofBool r.truthy]
+
+def stepC10 : Sexp → Sexp
+  | .list [.atom "once", s] =>
+    match optStr? s with
+    | some s => match ordinalOnce s with
+      | .ok m => .list [.atom "ok", .atom m.name]
+      | .error e => ofErr e
+    | none => .atom "bad-op"
+  | .list [.atom "extract", b, s] =>
+    match bool? b, optStr? s with
+    | some b, some s => match extractOrdinal b s with
+      | .ok none => .list [.atom "ok", .atom "none"]
+      | .ok (some m) => .list [.atom "ok", .atom m.name]
+      | .error e => ofErr e
+    | _, _ => .atom "bad-op"
+  | .list [.atom "cast", k, t] =>
+    match kind? k, pyt? t with
+    | some k, some t => match castRule k t with
+      | .same => .atom "same"
+      | .conv => .atom "conv"
+      | .err => .atom "CastError"
+    | _, _ => .atom "bad-op"
+  | .list [.atom "where", m, k, lo, hi] =>
+    match member? m, kind? k, raw? lo, raw? hi with
+    | some m, some k, some lo, some hi => match whereTerms m k lo hi with
+      | .ok ts => .list (.atom "ok" :: ts.map (fun t => .list [.atom t.1.name, Sexp.ofInt t.2]))
+      | .error e => ofErr e
+    | _, _, _, _ => .atom "bad-op"
+  | .list [.atom "windows", o, .list ws, d] =>
+    match ord? o, ws.mapM win?, d.intList? with
+    | some o, some ws, some d =>
+      .list (ws.map (fun w => match launch o w.1 w.2 d with
+        | .ok idx => .list (.atom "ok" :: idx.map Sexp.ofNat)
+        | .error e => ofErr e))
+    | _, _, _ => .atom "bad-op"
+  | .list [.atom "train", lo, tag] =>
+    match raw? lo, raw? tag with
+    | some lo, some tag => ofRaw (trainLower lo tag)
+    | _, _ => .atom "bad-op"
+  | _ => .atom "bad-op"
+
+def main : IO Unit := driverLoop stepC10
